@@ -71,42 +71,42 @@ impl Dictionary {
     /// Parses an existing dictionary file.
     pub fn from_existing(buffer: ByteSpan) -> Option<Dictionary> {
         let mut cursor = Cursor::new(buffer);
-        let mut dict = DictionaryHeader::read(&mut cursor).unwrap();
+        let mut dict = DictionaryHeader::read(&mut cursor).ok()?;
 
         let map_start = 0x8750u32;
         let map_size = 0x200u32;
 
         // fix up offsets
         for offset in &mut dict.block_offsets {
-            *offset = *offset + map_start + map_size;
+            *offset = offset.checked_add(map_start + map_size)?;
         }
 
         for i in 0..dict.block_lengths[0] / 2 {
-            let offset = dict.block_offsets[0] + i * 2;
+            let offset = dict.block_offsets[0].checked_add(i * 2)?;
             cursor.seek(SeekFrom::Start(offset as u64)).ok()?;
             dict.begin_node.push(cursor.read_le::<u16>().ok()?);
         }
 
         for i in 0..dict.block_lengths[1] / 2 {
-            let offset = dict.block_offsets[1] + i * 2;
+            let offset = dict.block_offsets[1].checked_add(i * 2)?;
             cursor.seek(SeekFrom::Start(offset as u64)).ok()?;
             dict.inner_node.push(cursor.read_le::<u16>().ok()?);
         }
 
         for i in 0..dict.block_lengths[2] / 2 {
-            let offset = dict.block_offsets[2] + i * 2;
+            let offset = dict.block_offsets[2].checked_add(i * 2)?;
             cursor.seek(SeekFrom::Start(offset as u64)).ok()?;
             dict.chara.push(cursor.read_le::<u16>().ok()?);
         }
 
         for i in 0..dict.block_lengths[3] / 2 {
-            let offset = dict.block_offsets[3] + i * 2;
+            let offset = dict.block_offsets[3].checked_add(i * 2)?;
             cursor.seek(SeekFrom::Start(offset as u64)).ok()?;
             dict.word.push(cursor.read_le::<u16>().ok()?);
         }
 
         for i in 0..dict.block_lengths[4] / 16 {
-            let offset = dict.block_offsets[4] + i * 16;
+            let offset = dict.block_offsets[4].checked_add(i * 16)?;
             cursor.seek(SeekFrom::Start(offset as u64)).ok()?;
             dict.entries.push(cursor.read_le::<EntryItem>().ok()?);
         }
@@ -131,7 +131,12 @@ impl Dictionary {
             }
 
             let chara = Dictionary::index_to_rune(&lut, id as u32);
-            self.dump_dict_node(&mut result, *v as i32, String::from(chara as u8 as char))
+            self.dump_dict_node(
+                &mut result,
+                *v as i32,
+                String::from(chara as u8 as char),
+                0,
+            )?;
         }
 
         Some(result)
@@ -161,11 +166,23 @@ impl Dictionary {
         }
     }
 
-    fn dump_dict_node(&self, vec: &mut Vec<String>, entry_id: i32, prev: String) {
-        let node = &self.header.entries[entry_id as usize];
+    /// Returns None if the nodes do not form a tree inside the tables, i.e. the file is damaged.
+    fn dump_dict_node(
+        &self,
+        vec: &mut Vec<String>,
+        entry_id: i32,
+        prev: String,
+        depth: usize,
+    ) -> Option<()> {
+        // a path through a tree visits every entry at most once, anything deeper is a cycle
+        if depth > self.header.entries.len() {
+            return None;
+        }
+
+        let node = self.header.entries.get(entry_id as usize)?;
         for i in 0..node.sibling {
             let Some(current) = self.get_string(entry_id, i as i32) else {
-                return;
+                return Some(());
             };
 
             if node.child == 0 {
@@ -173,14 +190,19 @@ impl Dictionary {
                 continue;
             }
 
-            let value = self.header.inner_node[(node.child + i) as usize];
+            let value = *self
+                .header
+                .inner_node
+                .get(node.child.checked_add(i)? as usize)?;
             if value == 0 {
                 vec.push(prev.clone() + &current);
                 continue;
             }
 
-            self.dump_dict_node(vec, value as i32, prev.clone() + &current);
+            self.dump_dict_node(vec, value as i32, prev.clone() + &current, depth + 1)?;
         }
+
+        Some(())
     }
 
     fn get_string(&self, entry_id: i32, sibling_id: i32) -> Option<String> {
@@ -200,15 +222,13 @@ impl Dictionary {
 
         if entry.flag == 0 {
             let pos = (entry.offset / 2) as i32 + sibling_id;
-            if pos as usize > self.header.chara.len() {
+            let chara = *self.header.chara.get(pos as usize)?;
+
+            if chara == 0 {
                 return None;
             }
 
-            if self.header.chara[pos as usize] == 0 {
-                return None;
-            }
-
-            return Some(vec![self.header.chara[pos as usize]]);
+            return Some(vec![chara]);
         }
 
         let begin = entry.offset / 2;
@@ -218,7 +238,7 @@ impl Dictionary {
             end += 1;
         }
 
-        Some(self.header.word[begin as usize..end as usize].to_vec())
+        Some(self.header.word.get(begin as usize..end as usize)?.to_vec())
     }
 }
 
